@@ -53,7 +53,7 @@ JudgeHist(e) ==
 \* original did (deep equality alone cannot see that writing one element changes another)
 \* features of the original that have a known as-implemented reading (classification of a failed round trip)
 RECURSIVE Feat(_)
-Feat(tv) == IF tv.g \in {"ptr", "iface"} THEN UNION {Feat(tv.a[i]) : i \in 1..Len(tv.a)}
+Feat(tv) == IF tv.g \in {"ptr", "iface"} THEN (IF "cyc" \in DOMAIN tv THEN {"embedded-pointer-cycle"} ELSE {}) \cup UNION {Feat(tv.a[i]) : i \in 1..Len(tv.a)}
             ELSE IF tv.g \in {"slice", "array", "map"} THEN
                  (IF tv.g = "slice" /\ tv.byt THEN {"bytes"} ELSE {})
                  \cup (IF \E i \in 1..Len(tv.a) : tv.a[i].g = "ptr" /\ tv.a[i].nil THEN {"nil-pointer-element"} ELSE {})
